@@ -35,7 +35,7 @@ def exact_family(chk, rng, n_cases, found):
     for i in range(n_cases):
         name = EXACT[i % len(EXACT)]
         cat = rng.choice(["generic", "conflict", "conflict", "antiparallel", "dup_rows", "rank_def", "one_row"])
-        J, cat = A.gen_matrix(rng, cat=cat, mmax=4, nmax=5, scale_exp=[-46, -36, 40, 0, -4, 3][(i // len(EXACT)) % 6])   # every aggregator at every scale
+        J, cat = A.gen_matrix(rng, cat=cat, mmax=4, nmax=5, scale_exp=[-46, -36, 40, 0, -9, 3][(i // len(EXACT)) % 6])   # every aggregator at every scale
         if name in ("ConFIG", "PCGrad") and any(all(x == 0 for x in r) for r in J):
             continue
         m = len(J)
@@ -48,7 +48,7 @@ def exact_family(chk, rng, n_cases, found):
             chk.note("skipped_config_discontinuity")
             continue
         # at the tiny global scale the row factors stay <= 1, so that EVERY row norm is below 1e-12
-        tiny = [-46, -36, 40, 0, -4, 3][(i // len(EXACT)) % 6] == -46
+        tiny = [-46, -36, 40, 0, -9, 3][(i // len(EXACT)) % 6] == -46
         c1, c2 = gen_c(rng, m, 0 if tiny else 10), gen_c(rng, m, 0 if tiny else 10)
         a, b = (F(2) ** rng.randint(-3, 0), F(rng.randint(1, 4), 4)) if tiny else (F(2) ** rng.randint(-3, 3), F(rng.randint(1, 7), 4))
         c3 = [a * x + b * y for x, y in zip(c1, c2)]
@@ -175,7 +175,7 @@ def run(chk):
     R.report_corr(chk, dis, found)
     chk.cov["rule"] = ("Mean, Sum, Constant, ConFIG, PCGrad and Random (fixed seed): three related "
                        "positive scalings c1, c2, a c1 + b c2 with entries 2^-10..2^10 on conflicting / "
-                       "generic / rank-deficient matrices at global scales 2^-46, 2^-36 (row norms straddling 1e-12), ... 2^40 (row norms from "
+                       "generic / rank-deficient matrices at global scales 2^-46, 2^-36 (row norms straddling 1e-12), 2^-9 (row norms straddling 1e-4), ... 2^40 (row norms from "
                        "1e-17 to 1e16), f32 and f64; UPGrad: full-row-rank conflicting "
                        "matrices on the reg_eps ladder 1e-2..1e-12 and 1e-16; non-trivial = more than "
                        "one row")
